@@ -108,3 +108,5 @@ register(CheckDef("C05", "array", {"quick": {"runs": 60000, "wall": 75}, "thorou
 register(CheckDef("C16", "array", {"quick": {"runs": 60000, "wall": 75}, "thorough": {"runs": 1200000, "wall": 1100}}, "exploration"))
 register(CheckDef("C13", "dataset", {"quick": {"runs": 40000, "wall": 75}, "thorough": {"runs": 1500000, "wall": 1100}}, "fault_enumeration"))
 register(CheckDef("C14", "dataset", {"quick": {"runs": 40000, "wall": 75}, "thorough": {"runs": 1500000, "wall": 1100}}, "exploration"))
+register(CheckDef("C19", "file", {"quick": {"runs": 30000, "wall": 75}, "thorough": {"runs": 1000000, "wall": 1100}}, "exploration"))
+register(CheckDef("C20", "file", {"quick": {"runs": 30000, "wall": 75}, "thorough": {"runs": 1000000, "wall": 1100}}, "exploration"))
